@@ -274,7 +274,8 @@ class Fixture:
         """multiplex: registered file objects other than the server socket"""
         ts = self.daemon.transportServer
         m = ts.selector.get_map()
-        return [k.fileobj for k in list(m.values()) if k.fileobj is not ts.sock]
+        # (client connections only: server sockets of combined daemons and other event sources in the same loop are not connections)
+        return [k.fileobj for k in list(m.values()) if isinstance(k.fileobj, self.P.socketutil.SocketConnection)]
 
     def live_connection_count(self):
         if self.servertype == "thread":
